@@ -26,7 +26,7 @@ var (
 			"gap is < 0.9*E(k) (counter was reset); non-trivial = pattern with >=3 consecutive failures followed by a success")
 )
 
-func TestMain(m *testing.M) { vh.Main(m, recA, recB) }
+func TestMain(m *testing.M) { vh.Main(m, recA, recB, recC) }
 
 func expected(n uint64) *big.Int {
 	cap3s := big.NewInt(int64(3 * time.Second))
